@@ -17,8 +17,11 @@ func c07Case(ctx *core.Ctx, i int) *Case {
 	c := &Case{Index: i, Seed: ctx.Seed}
 	c.Shape = gen.Shape{Schemas: 1 + r.Intn(2), Channels: 1 + r.Intn(3), Messages: 6 + r.Intn(10), Attachments: 1 + r.Intn(2), Metadata: r.Intn(2), MaxPayload: 40 + r.Intn(60), MaxLongStr: 20,
 		ManyMapKeys: 2, TimeMode: []string{"asc", "smallrand", "ties"}[r.Intn(3)]}
+	// every other file ends with a chunk that holds only schema/channel records (its CRC matters too)
+	c.Shape.TrailingChannels = i%2 == 0
+	c.Shape.Channels++
 	c.W = gen.RandWorkload(r, c.Shape)
-	c.K = gen.Config{Chunked: true, Compression: []string{"", "zstd", "lz4"}[i%3], ChunkSize: []int64{150, 250, 400}[r.Intn(3)], IncludeCRC: true, Level: r.Intn(2),
+	c.K = gen.Config{Chunked: true, Compression: []string{"", "zstd", "lz4", "custom"}[i%4], ChunkSize: []int64{150, 250, 400}[r.Intn(3)], IncludeCRC: true, Level: r.Intn(2),
 		SkipMessageIndexing: r.Intn(3) == 0, SkipSummaryOffsets: r.Intn(3) == 0}
 	return c
 }
@@ -55,7 +58,7 @@ func prepareC07(ctx *core.Ctx, i int, rep *core.Report) *c07File {
 			cf.startOf[k] = cum[k-1]
 		}
 	}
-	lr := drive.Lex(bytes.NewReader(cf.data), drive.LexOpts{Validate: true, ComputeAttCRC: true})
+	lr := drive.Lex(bytes.NewReader(cf.data), drive.LexOpts{Validate: true, ComputeAttCRC: true, Custom: c.K.Compression == "custom"})
 	if lr.Panic != nil || !drive.CleanEOF(lr.Err) || len(lr.Outs) != cum[len(cum)-1] {
 		rep.Inconclusive(fmt.Sprintf("c07 case %d: the undamaged file does not lex cleanly with validation (%v)", i, lr.Err))
 		return nil
@@ -78,7 +81,7 @@ func sameOuts(a, b []drive.Out) bool {
 
 // judgeDamagedChunk applies C07's chunk oracle to one damaged copy. recIdx is the top-level index of the damaged chunk.
 func judgeDamagedChunk(cf *c07File, damaged []byte, recIdx int, emitInvalid bool, rep *core.Report, comp string) (kind, msg string) {
-	lr := drive.Lex(bytes.NewReader(damaged), drive.LexOpts{Validate: true, EmitInvalid: emitInvalid, ComputeAttCRC: true})
+	lr := drive.Lex(bytes.NewReader(damaged), drive.LexOpts{Validate: true, EmitInvalid: emitInvalid, ComputeAttCRC: true, Custom: cf.c.K.Compression == "custom"})
 	if lr.Panic != nil {
 		return "panic", lr.Panic.Error()
 	}
@@ -265,7 +268,7 @@ func checkC07Job(ctx *core.Ctx, i, stripe int, rep *core.Report) {
 				for _, computedFirst := range []bool{false, true} {
 					rep.Eval(1)
 					rep.Count("attachment_bit_flips", 1)
-					lr := drive.Lex(bytes.NewReader(buf), drive.LexOpts{Validate: true, ComputeAttCRC: true, ComputedFirst: computedFirst})
+					lr := drive.Lex(bytes.NewReader(buf), drive.LexOpts{Validate: true, ComputeAttCRC: true, ComputedFirst: computedFirst, Custom: c.K.Compression == "custom"})
 					if lr.Panic != nil {
 						rep.Violate("panic", fmt.Sprintf("%s: attachment at %d, bit %d of byte %d flipped: %v", c.Describe(), rec.Off, bit, off, lr.Panic), cf.witness)
 						return
@@ -306,10 +309,10 @@ func checkC07Job(ctx *core.Ctx, i, stripe int, rep *core.Report) {
 
 func RunC07(ctx *core.Ctx, rep *core.Report) {
 	rep.Level = "fault_enumeration"
-	rep.Rule = "CRC-enabled multi-chunk files (none/zstd/lz4 in rotation) written by the real Writer; for every chunk EVERY single-bit flip of EVERY byte of the stored records field (positions from the reference decoder), plus 42 seeded multi-byte overwrites / byte-range swaps per chunk, each read by NewLexer(ValidateChunkCRCs) with and without EmitInvalidChunks. " +
+	rep.Rule = "CRC-enabled multi-chunk files (none/zstd/lz4 and a caller-supplied compressor with the matching decompressor, in rotation; every other file ends with a message-less chunk) written by the real Writer; for every chunk EVERY single-bit flip of EVERY byte of the stored records field (positions from the reference decoder), plus 42 seeded multi-byte overwrites / byte-range swaps per chunk, each read by NewLexer(ValidateChunkCRCs) with and without EmitInvalidChunks. " +
 		"Oracle: output identical to the original, or the records yielded before the first report (error that does not wrap io.EOF, or invalid-chunk token) are exactly the original records preceding the damaged chunk. " +
 		"Attachments: every single-bit flip from log_time through the CRC field, read through a callback with ComputeAttachmentCRCs that asks for ParsedCRC/ComputedCRC in either order; accepted iff the callback is not reached, its read fails, content equals the original, or computed != stored CRC. distinct_nontrivial counts distinct files enumerated."
 	rep.Assumptions = []string{"record and field positions come from the reference decoder", "a CRC-32 collision would be reported as a violation (it is one); none is possible for single-bit flips of uncompressed chunks"}
-	n := ctx.Pick(12, 300)
+	n := ctx.Pick(16, 400)
 	core.Parallel(ctx, rep, n*c07Stripes, func(k int) { checkC07Job(ctx, k/c07Stripes, k%c07Stripes, rep) })
 }
